@@ -162,7 +162,10 @@ pub fn run(rep: &mut Report, thorough: bool) {
             }
         };
         // a second target for the "target swapped" histories and a null-sp thread for "blamed thread not listed"
-        let sc2 = scen::build_target(&mut rng, &TargetCfg { sentinels: 2, ..cfg.clone() }).ok();
+        // the second target has EXACTLY the same layout (same addresses, same file names in
+        // another directory) but different ELF images behind the file mappings: anything a writer
+        // remembers per address from the first target is wrong for this one
+        let sc2 = same_layout_other_images(&mut rng, &sc).or_else(|| scen::build_target(&mut rng, &TargetCfg { sentinels: 2, ..cfg.clone() }).ok());
         let _ = &mut sc;
         let volatile = vec![sc.target.pid as u32];
         for h in 0..per_target {
@@ -274,4 +277,52 @@ pub fn run(rep: &mut Report, thorough: bool) {
         }
     }
     rep.require("image_pairs_compared", 20);
+}
+
+
+fn same_layout_other_images(rng: &mut Rng, sc: &scen::Scenario) -> Option<scen::Scenario> {
+    use crate::spec::RegionKind;
+    let mut b = crate::tspec::Builder::new();
+    b.spec = sc.b.spec.clone();
+    b.opts = sc.b.opts.clone();
+    b.sentinels = sc.b.sentinels.clone();
+    b.spec.dir = crate::target::new_dir("sc2");
+    let dir = b.spec.dir.clone();
+    let mut files = Vec::new();
+    for f in &sc.files {
+        let mut spec = f.spec.clone();
+        if let Some(id) = spec.phdr_note.as_mut() {
+            *id = rng.bytes(id.len());
+        }
+        if let Some(id) = spec.section_note.as_mut() {
+            *id = rng.bytes(id.len());
+        }
+        if spec.soname.is_some() {
+            spec.soname = Some(format!("libother{}.so.{}", rng.below(1000), rng.below(9)));
+        }
+        let built = crate::elf::build(&spec);
+        let name = std::path::Path::new(&f.path).file_name()?.to_string_lossy().into_owned();
+        let path = format!("{dir}/{name}");
+        let mut content = vec![0x5au8; f.pad as usize];
+        content.extend_from_slice(&built.bytes);
+        std::fs::write(&path, &content).ok()?;
+        for r in b.spec.regions.iter_mut() {
+            if let RegionKind::File { path: p, .. } = &mut r.kind {
+                if *p == f.path {
+                    *p = path.clone();
+                }
+            }
+        }
+        files.push(scen::FileTruth { path, spec, image: built.bytes, ..f.clone() });
+    }
+    // fd files live in the old directory: point them at the new one
+    for fd in b.spec.fds.iter_mut() {
+        match fd {
+            crate::spec::FdSpec::File { path } | crate::spec::FdSpec::DeletedFile { path } => *path = path.replace(&sc.b.spec.dir, &dir),
+            crate::spec::FdSpec::Dir { path } => *path = dir.clone(),
+            _ => {}
+        }
+    }
+    let target = crate::target::Target::spawn(b.spec.clone(), &b.opts).ok()?;
+    Some(scen::Scenario { b, target, pattern_regions: sc.pattern_regions.clone(), exec_regions: sc.exec_regions.clone(), files, holes: sc.holes.clone() })
 }
